@@ -169,12 +169,14 @@ _add(mk_plumbing('std', L3[2], 0))
 _add(mk_plumbing('var', L3[3], 1))
 
 
-def mk_argminmax(layout, tier='quick'):
+def mk_argminmax(layout, name, axis, tier='quick'):
+    better = (lambda a, b: a < b) if name == 'loc_min' else (lambda a, b: a > b)
+
     def body(env, skipna, **kw):
         f, lib, ref = build(env, kw, 2, 3, layout)
         out, exp = [], []
-        for name, better in (('loc_min', lambda a, b: a < b), ('loc_max', lambda a, b: a > b)):
-            for axis in (0, 1):
+        for _ in (0,):
+            for _ in (0,):
                 try:
                     r = getattr(f, name)(axis=axis, skipna=skipna)
                     out.append(env.obs(r.values.tolist()))
@@ -200,13 +202,16 @@ def mk_argminmax(layout, tier='quick'):
                 exp.append('raises' if bad else res)
         return out, exp
     params = [('skipna', 'bool')] + [(f'v{r}{c}', 'int') for r in range(2) for c in range(3)] + [(f'n{r}{c}', 'bool') for r in range(2) for c in range(3)]
-    return Cond(f'loc_min_max_{layouts.name(layout)}', params, body,
+    return Cond(f'{name}_axis{axis}_{layouts.name(layout)}', params, body,
             functions=['argmin_2d' if False else '_argminmax_2d'],
             bounds=f'2x3 float64 frame, layout {layout}; cells unbounded symbolic ints or NaN; skipna symbolic',
             route='Frame.loc_min / loc_max (both axes): label of the first extreme value per line; a missing value is never silently treated as a number', tier=tier, timeout=400)
 
 
-_add(mk_argminmax(L3[0]))
+_add(mk_argminmax(L3[0], 'loc_min', 0))
+_add(mk_argminmax(L3[0], 'loc_max', 1))
+_add(mk_argminmax(L3[1], 'loc_min', 1, tier='thorough'))
+_add(mk_argminmax(L3[1], 'loc_max', 0, tier='thorough'))
 
 
 def body_cumsum(env, **kw):
